@@ -1,12 +1,12 @@
 C = dict(units=["harness.c", "repo:substdio.c"], mode="plain", properties=["C07"])
 PROOFS = [
-    dict(C, name="qmail_close", entry="h_close", unwind=258, timeout=300, min_tagged=8,
+    dict(C, name="qmail_close", properties=["C07", "C14", "C03"], entry="h_close", unwind=258, timeout=300, min_tagged=8,
          title="qmail.c qmail_close(): \"\" iff qmail-queue exited 0 and nothing failed; D/Z classification of every exit status",
          functions=["qmail.c:qmail_close", "qmail.c:qmail_errstr", "qmail.c:qmail_put"],
          ce=dict(mode="plain", unwind=8), native=dict(), e2e="c07_qmail_close.sh",
          replaced=["substdio_put/flush/get, close, wait_pid (environment: any wait status 0..65535, any error text)"],
          canaries=[
-             dict(name="exit0-ignores-flagerr", file="qmail.c", literal=True, pattern='case 0: if (!qq->flagerr) return "";', repl='case 0: return "";', expect=r"C07: success is reported only"),
+             dict(name="exit0-ignores-flagerr", file="qmail.c", literal=True, pattern='case 0: if (!qq->flagerr) return "";', repl='case 0: return "";', expect=r"success is reported only"),
              dict(name="crash-not-checked", file="qmail.c", literal=True, pattern='  if (wait_crashed(wstat))\n    return "Zqq crashed (#4.3.0)";\n', repl='', expect=r"C07"),
              dict(name="errstr-off-by-one", file="qmail.c", literal=True, pattern="len < 255", repl="len < 256", expect=r"."),
          ]),
